@@ -4,6 +4,7 @@
 #include "../engine/pbt.hpp"
 #include "../engine/gen.hpp"
 #include "../engine/guard.hpp"
+#include "../engine/statics.hpp"
 #include "goldilocks_base_field.hpp"
 #include "goldilocks_cubic_extension.hpp"
 
@@ -28,7 +29,7 @@ struct T4 : TB { __m256i creg[3], areg[3], breg[3], auxreg[3]; };
 #ifdef __AVX512__
 struct T8 : TB { __m512i creg[3], areg[3], breg[3], auxreg[3]; };
 #endif
-struct Row { const char *decl; int line; OpK op; int L; int dA; bool cA; Shape A; int dB; bool cB; Shape B; Shape C; Aux aux; void (*call)(TB &); };
+struct Row { const char *decl; int line; OpK op; int L; int dA; bool cA; Shape A; int dB; bool cB; Shape B; Shape C; Aux aux; void (*call)(TB &); void (*call_ca)(TB &); void (*call_cb)(TB &); };
 static const Row ROWS[] = {
 #include "c16_table.inc"
 };
@@ -59,6 +60,16 @@ static void fill_input(Operand &o, const Case &c, int which, uint64_t junk)
     const uint64_t *pool = &c.v[P_POOL + (which ? NPOOL / 2 : 0)];
     const int np = NPOOL / 2;
     o.eff.assign(o.L, ref::E3{0, 0, 0});
+    if (o.s == S_ARR_CONST) {
+        // constant operands live in ONE persistent 3-word buffer per slot (ending at a guard page): the same pointer is passed on every call of
+        // every case while its content changes -- anything keyed on the pointer value (a memo, a cached derived quantity) goes stale at once
+        static guard::Buf persist[2];
+        if (!persist[which].p) persist[which].alloc(3 * sizeof(E));
+        o.arena = persist[which].as<E>() + (3 - o.dim); o.guarded = true; // (base operands: the word(s) right before the guard page)
+        for (int i = 0; i < o.dim; i++) o.arena[i].fe = pool[i];
+        for (int k = 0; k < o.L; k++) for (int i = 0; i < o.dim; i++) o.eff[k][i] = pool[i];
+        return;
+    }
     if (is_arr(o.s)) {
         // exact extent: the arena ends at a guard page (ASan build: exact-size malloc), one element past the last designated cell faults
         o.gb.alloc(o.size * sizeof(E)); o.arena = o.gb.as<E>(); o.guarded = true; // exact extent
@@ -81,7 +92,7 @@ template <typename T, typename V> static void load_regs(T &t, const Operand &A, 
     }
 }
 
-static bool run_row(const Row &r, const Case &c, uint64_t junk, std::vector<ref::E3> &out, std::string &why)
+static bool run_row(const Row &r, const Case &c, uint64_t junk, std::vector<ref::E3> &out, std::string &why, int alias = 0, bool probe_statics = false)
 {
     const int L = r.L;
     Operand A, B, C; A.s = r.A; B.s = r.B; C.s = r.C; A.L = B.L = C.L = L; A.dim = r.dA; B.dim = r.dB; C.dim = 3;
@@ -111,8 +122,34 @@ static bool run_row(const Row &r, const Case &c, uint64_t junk, std::vector<ref:
 #ifdef __AVX512__
     else load_regs(t8, A, B, aux, L, [](const uint64_t *p) { return _mm512_load_si512((const void *)p); });
 #endif
-    r.call(*t);
+    // every 8th case (second run of the row only: never the first call of a routine) the static storage of the process is checksummed
+    // right before and right after the call: a routine must not write anywhere but its designated outputs
+    static thread_local uint64_t g_static_probe = 0;
+    const bool probe = !SAN && probe_statics && ((++g_static_probe & 7) == 0); // (not in sanitizer builds: their runtime keeps bookkeeping in the executable's own data segment)
+    uint64_t cs0 = probe ? statics::checksum() : 0;
+    if (alias == 0) r.call(*t); else if (alias == 1) r.call_ca(*t); else r.call_cb(*t);
+    if (probe && statics::checksum() != cs0) { why = "wrote to static storage of the process (a hidden buffer or memo): memory other than the designated output positions changed during the call"; return false; }
     out.assign(L, ref::E3{0, 0, 0});
+    if (alias) {
+        // in-place call: the result is delivered in the first (alias 1) / second (alias 2) operand's own storage
+        Operand &X = alias == 1 ? A : B;
+        if (is_arr(C.s)) { for (int k = 0; k < L; k++) for (int i = 0; i < 3; i++) out[k][i] = X.arena[3 * k + i].fe; }
+        else {
+            alignas(64) uint64_t buf[8];
+            for (int i = 0; i < 3; i++) {
+                if (L == 4) _mm256_store_si256((__m256i *)buf, alias == 1 ? t4.areg[i] : t4.breg[i]);
+#ifdef __AVX512__
+                else _mm512_store_si512((void *)buf, alias == 1 ? t8.areg[i] : t8.breg[i]);
+#endif
+                for (int k = 0; k < L; k++) out[k][i] = buf[k];
+            }
+        }
+        for (int k = 0; k < L; k++) {
+            ref::E3 want = r.op == OP_ADD ? ref::add3(A.eff[k], B.eff[k]) : r.op == OP_SUB ? ref::sub3(A.eff[k], B.eff[k]) : ref::mul3(A.eff[k], B.eff[k]);
+            if (ref::can3(out[k]) != want) { why = std::string("in-place call (the result is the ") + (alias == 1 ? "first" : "second") + " operand's own storage): element " + std::to_string(k) + ": got " + s3(ref::can3(out[k])) + " want " + s3(want) + " (a=" + s3(A.eff[k]) + " b=" + s3(B.eff[k]) + ")"; return false; }
+        }
+        return true;
+    }
     if (is_arr(C.s)) { for (int k = 0; k < L; k++) for (int i = 0; i < 3; i++) out[k][i] = C.arena[C.pos[k] + i].fe; }
     else {
         alignas(64) uint64_t buf[8];
@@ -154,8 +191,11 @@ static bool body_row(const Case &c, Ctx &ctx)
     std::vector<ref::E3> o1, o2; std::string why;
     std::string head = std::string(r.decl) + " [A=" + SN[r.A] + "/dim" + std::to_string(r.dA) + " B=" + SN[r.B] + "/dim" + std::to_string(r.dB) + " -> " + SN[r.C] + "] strides a,b,c=" + std::to_string(c.v[P_SA]) + "," + std::to_string(c.v[P_SB]) + "," + std::to_string(c.v[P_SC]);
     if (!run_row(r, c, c.v[P_JUNK], o1, why)) return ctx.fail(head + ": " + why);
-    if (!run_row(r, c, ~c.v[P_JUNK], o2, why)) return ctx.fail(head + ": " + why);
+    if (!run_row(r, c, ~c.v[P_JUNK], o2, why, 0, true)) return ctx.fail(head + ": " + why);
     for (int k = 0; k < r.L; k++) if (ref::can3(o1[k]) != ref::can3(o2[k])) return ctx.fail(head + ": result depends on input cells that its strides do not designate");
+    // in-place forms (accumulate usage: x = x*b, y = a*y), wherever the output has the shape of an operand
+    if (r.call_ca) { ctx.cls("shape:in-place(result==first-operand)"); if (!run_row(r, c, c.v[P_JUNK], o2, why, 1)) return ctx.fail(head + ": " + why); }
+    if (r.call_cb) { ctx.cls("shape:in-place(result==second-operand)"); if (!run_row(r, c, c.v[P_JUNK], o2, why, 2)) return ctx.fail(head + ": " + why); }
     return true;
 }
 static std::string desc_row(const Case &c)
